@@ -59,7 +59,7 @@ func genC09(r *h.Rng, tier string, idx int) *h.Plan {
 	var allIds []string
 	allIds = append(allIds, factIds...)
 	for _, l := range locs {
-		allIds = append(allIds, "r"+l)
+		allIds = append(allIds, "r"+l, "made-r"+l)
 	}
 	p.Cfg["ids"] = toIface(allIds)
 	parents := map[string][]string{}
@@ -84,6 +84,17 @@ func genC09(r *h.Rng, tier string, idx int) *h.Plan {
 			rule := map[string]interface{}{
 				"when":   map[string]interface{}{"pattern": map[string]interface{}{"ping": r.Pick([]string{"a", "b", "?p"})}},
 				"action": map[string]interface{}{"code": fmt.Sprintf("'%s.%d'", l, i)},
+			}
+			if r.P(1, 3) {
+				// a rule that reads inherited facts in its condition and then writes:
+				// the write belongs to the location the event was sent to, whichever
+				// location owns the rule and wherever the condition found its facts
+				// (every location holds its own f0, so the condition always holds;
+				// the action's fact id is the rule's own, so its effect is the same
+				// however many bindings the condition yields)
+				rule["condition"] = map[string]interface{}{"pattern": map[string]interface{}{"touch": "?t"}}
+				rule["action"] = map[string]interface{}{"code": ActionCode([]h.Op{
+					{K: "addfact", Id: "made-r" + l, J: map[string]interface{}{"madeby": "r" + l}}}, fmt.Sprintf("%s.%d", l, i))}
 			}
 			p.Ops = append(p.Ops, h.Op{K: "addrule", Loc: l, Id: "r" + l, J: rule})
 		case 3:
@@ -129,6 +140,7 @@ func genC09(r *h.Rng, tier string, idx int) *h.Plan {
 		map[string]interface{}{"at": "?at", "n": "?n"},
 		map[string]interface{}{"n": "x"},
 		map[string]interface{}{"touch": "?l"},
+		map[string]interface{}{"madeby": "?r"},
 	}
 	p.Cfg["events"] = []interface{}{map[string]interface{}{"ping": "a"}, map[string]interface{}{"ping": "b"}}
 	return p
